@@ -144,6 +144,9 @@ func (monC18) TaskEnd(s *Sim, t *Task) {
 	if t.Ctrl != CtrlSetting || t.Crashed {
 		return
 	}
+	if c := statusWriteSwallowed(t, KSetting); c != nil {
+		s.Violate("C18", "verdict-not-stored", "", "%s: the write of its verdict failed (%v) but the reconcile reported success and no requeue: the setting counts as reconciled with a stale status", t.Label(), c.Err)
+	}
 	nodeListFailed := false
 	var write *Call
 	for _, c := range t.Calls {
